@@ -10,7 +10,7 @@ Spaces (all complete within their bound, VERIF_SEED only permutes the walk):
        attribute attached to the observation / the dataset), alone and inside a fixed
        [String dimension, Decimal measure] context.  thorough: every container x every entry point;
        quick: alone -> every entry point on the Schema + to_vtl_json on the other containers,
-       in context -> to_vtl_json + semantic_analysis on every container.
+       in context -> to_vtl_json on every container + semantic_analysis on the Schema.
 * Bf — every multiset of n (role, representative type) components, one representative SDMX type per VTL type
        named by the documentation (8 x 3 = 24 kinds of component).  ``to_vtl_json`` through every container;
        n <= 3 quick, n <= 5 thorough (thorough also ``semantic_analysis`` for n <= 3).
@@ -47,6 +47,11 @@ TYPE_ALIAS = {"TimePeriod": "Time_Period", "TimeInterval": "Time"}
 VALUES = {"String": ["a", "b"], "Integer": [1, 2], "Number": [1.5, 2.5], "Boolean": [True, False],
           "Date": ["2020-01-01", "2021-02-03"], "Time_Period": ["2020Q1", "2021Q2"],
           "Time": ["2020-01-01/2020-12-31", "2021-01-01/2021-12-31"], "Duration": ["A", "M"]}
+
+
+# values that are valid for the documented VTL type *and* for the Arrow dtype pysdmx casts the column to
+# when the frame is put into a PandasDataset (Month -> int8)
+SDMX_VALUES = {"Month": ["1", "2"]}
 
 
 # ------------------------------------------------------------------------------------------------
@@ -215,7 +220,7 @@ def build_frame(spec):
     nrows = 2 if any(c[0] == "DIMENSION" for c in spec) else 1
     cols = {}
     for i, c in enumerate(spec):
-        vals = VALUES.get(o["types"].get(effective_dtype(c)), VALUES["String"])
+        vals = SDMX_VALUES.get(effective_dtype(c)) or VALUES.get(o["types"].get(effective_dtype(c)), VALUES["String"])
         col = [vals[0]] if nrows == 1 else [vals[0], vals[1] if c[0] == "DIMENSION" else None]
         cols[comp_name(i, c[0])] = pd.Series(col, dtype=object)
     return pd.DataFrame(cols)
@@ -256,9 +261,18 @@ def _reduce(entry, out):
         return ("ok", None, None)
 
 
+def pandas_dataset(obj, spec):
+    """the PandasDataset a pysdmx user holds: pysdmx itself casts the frame to the Schema's Arrow dtypes on
+    construction -> ('ok', dataset) | ('skip', reason) when pysdmx refuses the input before the engine is called"""
+    from pysdmx.io.pd import PandasDataset
+    try:
+        return ("ok", PandasDataset(structure=obj, data=build_frame(spec)))
+    except Exception as e:  # noqa: BLE001  (pysdmx.errors.Invalid: not an engine outcome)
+        return ("skip", "%s: %s" % (type(e).__name__, str(e)[:200]))
+
+
 def execute(kind, entry, spec):
     harness.boot()
-    from pysdmx.io.pd import PandasDataset
     from vtlengine import run, run_sdmx, semantic_analysis
     from vtlengine.files.sdmx_handler import to_vtl_json
     obj = build_container(kind, spec)
@@ -268,11 +282,15 @@ def execute(kind, entry, spec):
         out = harness.call(semantic_analysis, script=SCRIPT, data_structures=obj)
     elif entry == "run":
         out = harness.call(run, script=SCRIPT, data_structures=obj, datapoints={DS: build_frame(spec)})
-    elif entry == "run_sdmx":
-        out = harness.call(run_sdmx, SCRIPT, [PandasDataset(structure=obj, data=build_frame(spec))])
-    elif entry == "run_sdmx_mapped":
-        urn = getattr(obj, "short_urn", None) or "DataStructure=MD:%s(1.0)" % DS
-        out = harness.call(run_sdmx, SCRIPT, [PandasDataset(structure=obj, data=build_frame(spec))], mappings={urn: DS})
+    elif entry in SCHEMA_ONLY:
+        pds = pandas_dataset(obj, spec)
+        if pds[0] == "skip":
+            return pds
+        if entry == "run_sdmx":
+            out = harness.call(run_sdmx, SCRIPT, [pds[1]])
+        else:
+            urn = getattr(obj, "short_urn", None) or "DataStructure=MD:%s(1.0)" % DS
+            out = harness.call(run_sdmx, SCRIPT, [pds[1]], mappings={urn: DS})
     else:
         raise ValueError(entry)
     return _reduce(entry, out)
@@ -282,16 +300,27 @@ _CONTROL = {}
 
 
 def control(entry, spec, exp):
-    """the same script on the documented VTL JSON structure (semantic_analysis / run only)"""
-    k = ("semantic_analysis" if entry == "semantic_analysis" else "run", tuple(exp))
+    """the same script on the documented VTL JSON structure, with the very frame the entry point received
+    (run_sdmx: the frame as cast by pysdmx for this Schema)"""
+    if entry == "semantic_analysis":
+        k, frame = ("semantic_analysis", tuple(exp)), None
+    elif entry == "run":
+        frame = build_frame(spec)
+        k = ("run", tuple(exp), repr(frame.to_dict("list")))
+    else:
+        pds = pandas_dataset(build_container("Schema", spec), spec)
+        if pds[0] == "skip":
+            return pds
+        frame = pds[1].data
+        k = ("run_sdmx", tuple(exp), repr(frame.to_dict("list")), tuple(str(t) for t in frame.dtypes))
     if k not in _CONTROL:
         harness.boot()
         from vtlengine import run, semantic_analysis
-        if k[0] == "semantic_analysis":
+        if frame is None:
             out = harness.call(semantic_analysis, script=SCRIPT, data_structures=control_json(exp))
         else:
-            out = harness.call(run, script=SCRIPT, data_structures=control_json(exp), datapoints={DS: build_frame(spec)})
-        _CONTROL[k] = _reduce(k[0], out)
+            out = harness.call(run, script=SCRIPT, data_structures=control_json(exp), datapoints={DS: frame})
+        _CONTROL[k] = _reduce(k[0] if k[0] != "run_sdmx" else "run", out)
     return _CONTROL[k]
 
 
@@ -330,7 +359,9 @@ def observe(kind, entry, spec):
     exp, unm = expected_of(spec)
     red = execute(kind, entry, spec)
     sigs, agree = [], None
-    if red[0] == "err":
+    if red[0] == "skip":
+        outcome = "input-refused-by-pysdmx"
+    elif red[0] == "err":
         _, ekind, cls, code, _msg = red
         if ekind == "raw":
             if exp is not None and entry != "to_vtl_json" and control(entry, spec, exp)[:4] == red[:4]:
@@ -397,13 +428,16 @@ def _has_kind(kind, entry, spec, sig):
 
 
 def scope_of(kind, entry, spec, sig):
-    """-> (scope suffix, container to probe with, entry to probe with)"""
-    if (kind, entry) == ("Schema", "to_vtl_json") or _has("Schema", "to_vtl_json", spec, sig):
-        return "", "Schema", "to_vtl_json"
-    if kind != "Schema" and _has(kind, "to_vtl_json", spec, sig):
-        return "@" + kind, kind, "to_vtl_json"
-    if kind == "Schema" or _has("Schema", entry, spec, sig):
-        return "@" + entry, "Schema", entry
+    """the most general (container, entry point) at which the same deviation already shows, walking the entry
+    points from to_vtl_json upwards and trying the Schema before the container at hand
+    -> (scope suffix of the key, container to probe with, entry to probe with)"""
+    for e2 in ENTRIES[:ENTRIES.index(entry) + 1]:
+        for k2 in (("Schema",) if kind == "Schema" else ("Schema", kind)):
+            if (k2, e2) != (kind, entry) and not _has(k2, e2, spec, sig):
+                continue
+            if e2 == "to_vtl_json":
+                return ("" if k2 == "Schema" else "@" + k2), k2, e2
+            return ("@" + e2 if k2 == "Schema" else "@%s+%s" % (k2, e2)), k2, e2
     return "@%s+%s" % (kind, entry), kind, entry
 
 
@@ -441,6 +475,12 @@ def findings(kind, entry, spec):
     outcome, sigs, red, _ = observe(kind, entry, spec)
     res = []
     for sig in sigs:
+        if sig[1] is None and entry != "to_vtl_json" and expected_of(spec)[0] is not None and any(
+                x[1] is not None for k2 in {"Schema", kind} for x in observe(k2, "to_vtl_json", spec)[1]):
+            # the structure handed to the engine already deviates from the documentation (reported under the
+            # component's own key by the to_vtl_json case of the same unit): an error / different result of
+            # the heavier entry point on that structure is its consequence, not another defect
+            continue
         suffix, pk, pe = scope_of(kind, entry, spec, sig)
         for construct, cls in subjects_of(pk, pe, spec, sig):
             if sig[1] is not None and sig[0] in ("wrong-type", "wrong-role", "wrong-nullable"):
@@ -531,22 +571,30 @@ PLANS = {
     # every entry point on the Schema, to_vtl_json on every container
     "entries": [("Schema", e) for e in ENTRIES] + [(k, "to_vtl_json") for k in CONTAINERS[1:]],
     "sem": [(k, e) for k in CONTAINERS for e in ("to_vtl_json", "semantic_analysis")],
+    # to_vtl_json on every container, semantic_analysis on the Schema
+    "ctx": [(k, "to_vtl_json") for k in CONTAINERS] + [("Schema", "semantic_analysis")],
     "json": [(k, "to_vtl_json") for k in CONTAINERS],
 }
-COST = {"full": 0.6, "entries": 0.35, "sem": 0.12, "json": 0.0004}  # seconds of work on an idle core (chunking only)
+COST = {"full": 0.6, "entries": 0.3, "sem": 0.1, "ctx": 0.04, "json": 0.0004}  # seconds of work on an idle core (chunking only)
 
 
 def cover_key(kind, entry, spec, outcome):
     return "%s|%s|%s|%s" % (entry, kind, spec_label(spec), outcome)
 
 
+def _vsort(v):
+    r = v["replay"] or {}
+    return (v["key"], len(r.get("spec", [])), ENTRIES.index(r["entry"]) if r.get("entry") in ENTRIES else 0,
+            CONTAINERS.index(r["container"]) if r.get("container") in CONTAINERS else 0, repr(r))
+
+
 def work(item, rec):
     harness.boot()
-    emitted = set()
+    best = {}  # finding key -> smallest failing case of this item (the globally smallest is always among them)
     for plan, spec in item:
         for kind, entry in PLANS[plan]:
             outcome, sigs, red, agree = observe(kind, entry, spec)
-            trivial = outcome.endswith("also-on-documented-vtl-json")
+            trivial = outcome.endswith("also-on-documented-vtl-json") or red[0] == "skip"
             sample = None
             if entry == "run" and outcome == "mapped-as-documented" and len(spec) == 3:
                 sample = {"container": kind, "entry": entry, "structure": spec_label(spec), "components": red[1], "rows": red[2]}
@@ -556,17 +604,23 @@ def work(item, rec):
                 rec.count("results-with-data:" + entry)
             if agree is True and red[0] == "ok":
                 rec.count("agrees-with-documented-vtl-json:" + entry)
-            if trivial:
+            if red[0] == "skip":
+                rec.count("input-refused-by-pysdmx:" + entry)
+                rec.note("%s on %s[%s]: pysdmx refuses to build the PandasDataset (%s)" % (entry, kind, spec_label(spec), red[1]))
+            elif trivial:
                 rec.note("%s on %s[%s]: %s %s also raised by the documented VTL JSON structure (not attributed to the SDMX mapping)" % (
                     entry, kind, spec_label(spec), red[2], red[3]))
             if sigs:
+                rec.count("deviating-calls:" + entry)
                 for key, what in findings(kind, entry, spec):
-                    if key not in emitted:
-                        emitted.add(key)
-                        rec.violation(key, what, {"kind": "structure", "container": kind, "entry": entry,
-                                                   "spec": [list(c) for c in spec], "finding": key})
+                    v = {"key": key, "what": what, "replay": {"kind": "structure", "container": kind, "entry": entry,
+                                                               "spec": [list(c) for c in spec], "finding": key}}
+                    if key not in best or _vsort(v) < _vsort(best[key]):
+                        best[key] = v
         for k in [k for k in _OBS if len(k[2]) > 1]:  # bounded memory; single-component probes and controls stay
             del _OBS[k]
+    for key in sorted(best):
+        rec.violation(key, best[key]["what"], best[key]["replay"])
 
 
 def unusable_containers(rec):
@@ -595,6 +649,8 @@ def unusable_case(kind, entry, spec):
     if entry != "to_vtl_json" and kind not in CONTAINERS:
         if execute(kind, "to_vtl_json", spec)[:4] != red[:4]:
             suffix = "@" + entry
+    if red[0] == "skip":  # pysdmx refused to build the PandasDataset: the engine was never reached
+        return ("input-refused-by-pysdmx", red, None)
     if red[0] == "ok":
         return ("accepted-unusable", red, "C27:container:%s%s:accepted" % (cls_, suffix))
     if red[1] == "raw":
@@ -611,8 +667,8 @@ class Check:
             "on one container (Schema, DataStructureDefinition, Dataflow with embedded DSD) built from one structure. "
             "Structures: (A) every installed pysdmx DataType x every Role as the single varying component (data type "
             "given locally / by the concept / defaulted / concept referenced; alone and inside a 2-component context; "
-            "thorough: every container x entry point, quick: every entry point on the Schema + to_vtl_json / "
-            "semantic_analysis on the other containers); "
+            "thorough: every container x entry point, quick: every entry point on the Schema + to_vtl_json "
+            "on the other containers); "
             "(Bf) every multiset of n (role, representative SDMX type per documented VTL type) components, through "
             "to_vtl_json (n<=3 quick, n<=5 thorough; thorough also semantic_analysis for n<=3); (Br) every composition "
             "of {D,M,A} of size n in both component orders x the 8 rotations of the representative types, through every "
@@ -658,15 +714,21 @@ class Check:
                               "the only non-nullable components" % (r, str(nul).lower()), {"kind": "docs", "role": r})
         reps = representatives()
         nmax = 3 if tier == "quick" else 5
-        # A: thorough = every container x entry point; quick = every entry point on the Schema for the component
-        # alone, to_vtl_json + semantic_analysis on every container for the component in its context
-        units = [("full" if tier == "thorough" else "entries" if len(s) == 1 else "sem", s) for s in space_a()]
+        # A: thorough = every container x entry point; quick = every entry point on the Schema (+ to_vtl_json on the
+        # other containers) for the component alone, to_vtl_json on every container + semantic_analysis on the
+        # Schema for the component in its context
+        units = [("full" if tier == "thorough" else "entries" if len(s) == 1 else "ctx", s) for s in space_a()]
         for n in range(1, nmax + 1):
             units += [("full", s) for s in space_rot(n, reps)]
             units += [("sem" if tier == "thorough" and n <= 3 else "json", s) for s in space_full(n, reps)]
         sizes = {"A": len(space_a()), "Br": sum(len(space_rot(n, reps)) for n in range(1, nmax + 1)),
                  "Bf": sum(len(space_full(n, reps)) for n in range(1, nmax + 1))}
-        units = harness.seeded_order(units, seed)
+        # units that share the documented structure are walked together (the control run is cached per worker);
+        # the seed permutes the groups and the units inside a group
+        groups = {}
+        for u in units:
+            groups.setdefault((u[0], "" if u[0] == "json" else repr(expected_of(u[1]))), []).append(u)
+        units = [u for _, g in harness.seeded_order(sorted(groups.items()), seed) for u in harness.seeded_order(g, seed)]
         # chunk by estimated cost (about 5 s of work per item)
         items, cur, cost = [], [], 0.0
         for u in units:
@@ -680,9 +742,7 @@ class Check:
         harness.pmap(work, items, rec)
         unusable_containers(rec)
         # smallest failing structure first, so that the replay written for a key is the same under every seed
-        rec.violations.sort(key=lambda v: (v["key"], len((v["replay"] or {}).get("spec", [])),
-                                           ENTRIES.index(v["replay"]["entry"]) if v["replay"].get("entry") in ENTRIES else 0,
-                                           repr(v["replay"])))
+        rec.violations.sort(key=_vsort)
         # non-vacuity
         seen_dtypes = len(installed)
         if sizes["A"] != len(installed) * 2 * 4 * 2 + 2 * 4 * 2:
@@ -690,12 +750,14 @@ class Check:
         for e in ENTRIES:
             if not rec.counters.get("calls:" + e):
                 rec.tool_error("entry point %s was never called" % e)
-        for e in ("run", "run_sdmx", "run_sdmx_mapped"):
-            if not rec.counters.get("results-with-data:" + e):
-                rec.tool_error("%s never returned a dataset with a non-null value" % e)
+        # an entry point whose calls were all trivial (refused by pysdmx / error shared with the control) was not examined
         for e in ENTRIES[1:]:
-            if not rec.counters.get("agrees-with-documented-vtl-json:" + e):
-                rec.tool_error("%s never succeeded on both the SDMX structure and the documented VTL JSON structure" % e)
+            compared = rec.counters.get("agrees-with-documented-vtl-json:" + e, 0) + rec.counters.get("deviating-calls:" + e, 0)
+            if not compared:
+                rec.tool_error("%s: no call was compared with the documentation (all %d calls trivial)" % (e, rec.counters.get("calls:" + e, 0)))
+        for e in ("run", "run_sdmx", "run_sdmx_mapped"):
+            if not rec.counters.get("results-with-data:" + e) and not rec.counters.get("deviating-calls:" + e):
+                rec.tool_error("%s never returned a dataset with a non-null value" % e)
         if not rec.outcomes.get("mapped-as-documented") and not rec.violations:
             rec.tool_error("no structure was mapped and no violation was reported")
         return {"exhaustive": True, "installed_datatypes": seen_dtypes, "documented_datatypes": len(o["types"]),
